@@ -242,6 +242,36 @@ impl Family for ZeroCols {
     }
 }
 
+/// zero-column resultsets with row counts no list of calls could hold: end_row in a loop, counts
+/// around 2^24 (quick: 2^24+1 only) and, in the thorough tier, around 2^32 (about 30 s each)
+struct HugeZeroCols {
+    counts: Vec<u64>,
+}
+impl Family for HugeZeroCols {
+    fn name(&self) -> String {
+        "zero-column-row-counts-beyond-any-list-of-calls".into()
+    }
+    fn len(&self) -> u64 {
+        self.counts.len() as u64 * 2
+    }
+    fn run(&self, idx: u64, st: &mut Stats) -> Result<(), Violation> {
+        let n = self.counts[(idx / 2) as usize];
+        let bin = idx % 2 == 1;
+        st.nontrivial += 1;
+        st.bump("huge_zero_column_sets");
+        let prog = vec![WOp::Start(Arc::new(Vec::new())), WOp::EndRows(n), WOp::Finish];
+        let (units, out) = run_prog_conv(prog, bin, st)?;
+        match units.last() {
+            Some(Unit::Ok { rows, id: 0, .. }) if *rows == n => {}
+            other => return Err(Violation::new("zero-column-count", format!("{} rows ended on a zero-column resultset, client sees {:?}", n, other))),
+        }
+        second_ok(&out, &[(n, 0)])
+    }
+    fn describe(&self, idx: u64) -> J {
+        json!({"rows_ended": self.counts[(idx / 2) as usize], "binary": idx % 2 == 1})
+    }
+}
+
 /// Completions on one connection are a history: every sequence of `depth` exchanges over
 /// completions reported directly, in chains, as zero-column resultsets (text and binary), ordinary
 /// resultsets, errors, PREPARE replies and library-answered commands, with position-dependent
@@ -582,7 +612,7 @@ pub fn build(quick: bool) -> Check {
     Check {
         id: "C14",
         level: "model_checking",
-        rule: format!("(rows, last_insert_id) over a lattice of {} values per component (0, 1, 250..256, 2^16, 2^24, 2^32, 2^63, 2^64-1, every 2^k and 2^k +- 1) squared x 4 contexts (completed; complete_one first/middle; completed after complete_one) x text/binary; every value 0..1100 (thorough: 0..70000 and 2^24+-300) of one component against 0, 7, 251, 65536, 2^24, 2^64-1 of the other, both ways round; zero-column resultsets with every row count 0..300 and 65535, 65536, 70000 via end_row, write_row (empty and with cells), ignored write_col (values and NULLs), and as the second of two zero-column sets; completions reported (explicitly or by dropping the writer) by a callback that then returns Err; every sequence of <= 5 (thorough: 6) exchanges on one connection over 16 kinds (completions direct / chained / as zero-column sets in text and binary, ordinary resultsets, errors at once, after a completion and at the end of a zero-column set, PREPARE, PING, INIT_DB) with position-dependent counts from every length class; scripted walks of 1031 and 66000 (thorough: 140000) completions of those kinds; a 5000- or 70000-byte row, every number <= 600 (1300) of quiet exchanges, then completed(2^64-1, 1). Oracle: refwire's length-encoded-integer decoding of the OK packet, and mysql_common's OkPacket. Non-trivial = a component beyond the one-byte class.", nv),
+        rule: format!("zero-column resultsets of 2^24+1 rows (thorough: 2^24-1..2^24+1 and 2^32-1, 2^32, 2^32+3 rows, end_row called in a loop); (rows, last_insert_id) over a lattice of {} values per component (0, 1, 250..256, 2^16, 2^24, 2^32, 2^63, 2^64-1, every 2^k and 2^k +- 1) squared x 4 contexts (completed; complete_one first/middle; completed after complete_one) x text/binary; every value 0..1100 (thorough: 0..70000 and 2^24+-300) of one component against 0, 7, 251, 65536, 2^24, 2^64-1 of the other, both ways round; zero-column resultsets with every row count 0..300 and 65535, 65536, 70000 via end_row, write_row (empty and with cells), ignored write_col (values and NULLs), and as the second of two zero-column sets; completions reported (explicitly or by dropping the writer) by a callback that then returns Err; every sequence of <= 5 (thorough: 6) exchanges on one connection over 16 kinds (completions direct / chained / as zero-column sets in text and binary, ordinary resultsets, errors at once, after a completion and at the end of a zero-column set, PREPARE, PING, INIT_DB) with position-dependent counts from every length class; scripted walks of 1031 and 66000 (thorough: 140000) completions of those kinds; a 5000- or 70000-byte row, every number <= 600 (1300) of quiet exchanges, then completed(2^64-1, 1). Oracle: refwire's length-encoded-integer decoding of the OK packet, and mysql_common's OkPacket. Non-trivial = a component beyond the one-byte class.", nv),
         assumptions: vec!["64-bit components are covered at the boundary lattice, not exhaustively".into()],
         bounds: json!({"lattice": nv, "zero_column_max_exhaustive": 300}),
         exhaustive: true,
@@ -591,6 +621,7 @@ pub fn build(quick: bool) -> Check {
             Box::new(Pairs { vals, other: None, label: "count-pairs" }),
             Box::new(Pairs { vals: dense, other: Some(few), label: "dense-range-x-few" }),
             Box::new(ZeroCols { counts }),
+            Box::new(HugeZeroCols { counts: if quick { vec![(1 << 24) + 1] } else { vec![(1 << 24) - 1, 1 << 24, (1 << 24) + 1, (1 << 32) - 1, 1 << 32, (1 << 32) + 3] } }),
             Box::new(super::aftermath::Aftermath { prop: "C14" }),
             Box::new(super::soak::QuietRuns { max_n: if quick { 600 } else { 1300 }, ends_in_completion: true }),
             Box::new(CompletedThenFailed),
@@ -601,6 +632,6 @@ pub fn build(quick: bool) -> Check {
             Box::new(CompletionWalks { depth: 4 }),
             Box::new(CompletionWalks { depth: if quick { 5 } else { 6 } }),
         ],
-        required: vec!["aftermath_recovered", "quiet_runs", "completed_then_failed", "completion_walks", "eight_byte_lenenc", "zero_column_sets"],
+        required: vec!["aftermath_recovered", "quiet_runs", "completed_then_failed", "completion_walks", "eight_byte_lenenc", "zero_column_sets", "huge_zero_column_sets"],
     }
 }
